@@ -119,7 +119,7 @@ theorem step_ctr (c : C) (ev : Ev) :
     | peer p => rw [step_peer c hc, peer_ctr]; rfl
     | apiEarlyAck call ack =>
       simp only [step, hc, Bool.not_true, Bool.false_eq_true, ↓reduceIte]
-      rw [apiRegister_ctr, peer_ctr, apiWrite_ctr]; simp [evDraws, hc]
+      rw [peer_ctr, apiRegister_ctr, apiWrite_ctr]; simp [evDraws, hc]
   · have hc' : c.connected = false := by simpa using hc
     cases ev with
     | connect a =>
@@ -355,7 +355,8 @@ def clearStep (c : C) : Ev → Bool
 
 /-- **Preservation.**  A step whose request is written with an identifier not in flight keeps
 the identifiers in flight pairwise distinct - early acknowledgements included. -/
-theorem allDistinct_step (c : C) (ev : Ev) (h : AllDistinct c) (hclear : clearStep c ev = true) :
+theorem allDistinct_step_basic (c : C) (ev : Ev) (he : isEarly ev = false) (h : AllDistinct c)
+    (hclear : clearStep c ev = true) :
     AllDistinct (step c ev).1 := by
   by_cases hc : c.connected = true
   · cases ev with
@@ -389,33 +390,7 @@ theorem allDistinct_step (c : C) (ev : Ev) (h : AllDistinct c) (hclear : clearSt
           List.contains_eq_mem, decide_eq_false_iff_not] at hclear
         rw [← hreq.2.1]; exact hclear
     | peer p => rw [step_peer c hc]; exact allDistinct_peer _ _ h
-    | apiEarlyAck call ack =>
-      simp only [step, hc, Bool.not_true, Bool.false_eq_true, ↓reduceIte]
-      refine allDistinct_apiRegister _ _
-        (allDistinct_peer _ _ (by unfold AllDistinct; rw [inFlightIds_apiWrite]; exact h)) ?_
-      intro k a tag hreq hin
-      have hin' := inFlightIds_peer_subset _ _ _ hin
-      rw [inFlightIds_apiWrite] at hin'
-      cases hcr : callReq call with
-      | none =>
-        cases call with
-        | publish p tag' =>
-          simp only [callReq] at hcr
-          by_cases h0 : (p.qos == 0) = true
-          · simp [apiWrite, h0, callReq] at hreq
-          · have h0' : (p.qos == 0) = false := by simpa using h0
-            simp only [h0', Bool.false_eq_true, ↓reduceIte] at hcr
-            split at hcr <;> cases hcr
-        | subscribe id' topics tag' cb => cases hcr
-        | unsubscribe id' topics tag' => cases hcr
-        | ping tag' => simp [apiWrite, callReq] at hreq
-      | some x =>
-        obtain ⟨k', id, tag'⟩ := x
-        rw [(apiWrite_ids c call k' id tag' hcr).2] at hreq
-        simp only [Option.some.injEq, Prod.mk.injEq] at hreq
-        simp only [clearStep, hcr, hc, Bool.not_true, Bool.false_or, Bool.not_eq_true',
-          List.contains_eq_mem, decide_eq_false_iff_not] at hclear
-        rw [← hreq.2.1] at hin'; exact hclear hin'
+    | apiEarlyAck call ack => simp [isEarly] at he
   · have hc' : c.connected = false := by simpa using hc
     cases ev with
     | connect a =>
@@ -423,8 +398,21 @@ theorem allDistinct_step (c : C) (ev : Ev) (h : AllDistinct c) (hclear : clearSt
       unfold AllDistinct; rw [inFlightIds_connect]; exact h
     | _ => simp only [step, hc', Bool.not_false, ↓reduceIte]; exact h
 
+/-- **Preservation.**  A step whose request is written with an identifier not in flight keeps
+the identifiers in flight pairwise distinct - the composite event (the call, then the packet)
+included. -/
+theorem allDistinct_step (c : C) (ev : Ev) (h : AllDistinct c) (hclear : clearStep c ev = true) :
+    AllDistinct (step c ev).1 := by
+  cases ev with
+  | apiEarlyAck call ack =>
+    rw [step_early]
+    exact allDistinct_step_basic _ (.peer ack) rfl (allDistinct_step_basic c (.api call) rfl h hclear) rfl
+  | connect a => exact allDistinct_step_basic c _ rfl h hclear
+  | api call => exact allDistinct_step_basic c _ rfl h hclear
+  | peer p => exact allDistinct_step_basic c _ rfl h hclear
+
 /-- the request written by a step with a clear identifier is registered, under that identifier
-(also when its acknowledgement is processed before the registration) -/
+(also when its acknowledgement arrives before the registration) -/
 theorem clear_registered (c : C) (hc : c.connected = true) (ev : Ev) (call : Api)
     (hev : ev = .api call ∨ ∃ ack, ev = .apiEarlyAck call ack) (k : Kind) (id tag : Nat)
     (hreq : callReq call = some (k, id, tag)) (hclear : clearStep c ev = true) :
@@ -443,9 +431,8 @@ theorem clear_registered (c : C) (hc : c.connected = true) (ev : Ev) (call : Api
   · simp only [stepAccepted, hc, ↓reduceIte]
     refine regAccepted_clear _ _ k _ tag h2 ?_
     intro e he heq
-    have := inFlightIds_peer_subset (apiWrite c call).1 ack _ ((mem_inFlightIds _ _).mpr ⟨k, e, he, heq⟩)
-    rw [inFlightIds_apiWrite] at this
-    exact hnot this
+    rw [apiWrite_queue] at he
+    exact hnot ((mem_inFlightIds c _).mpr ⟨k, e, he, heq⟩)
 
 /-- **Exactness** (a call that returns before its acknowledgement is processed).  From a state
 whose identifiers in flight are pairwise distinct, the step leaves them pairwise distinct *and*
@@ -835,7 +822,7 @@ of every request just that the identifier it is *written with* - the caller's or
 the one the library assigns - is not in flight in its ack queue. -/
 
 def freshStepA (c : C) : Ev → Bool
-  | .api call =>
+  | .api call | .apiEarlyAck call _ =>
     match callReq call with
     | some (k, id, _) => !(queue k c).any (fun e => e.id == assigned c id)
     | none => true
@@ -848,6 +835,15 @@ def FreshA (c : C) : List Ev → Bool
 theorem freshStepA_of_freshStep (c : C) (ev : Ev) (h : freshStep c ev = true) : freshStepA c ev = true := by
   cases ev with
   | api call =>
+    simp only [freshStep, freshStepA] at h ⊢
+    cases hcr : callReq call with
+    | none => rfl
+    | some x =>
+      obtain ⟨k, id, tag⟩ := x
+      simp only [hcr, Bool.and_eq_true, bne_iff_ne, ne_eq] at h ⊢
+      simp only [assigned, h.1, ↓reduceIte]
+      exact h.2
+  | apiEarlyAck call ack =>
     simp only [freshStep, freshStepA] at h ⊢
     cases hcr : callReq call with
     | none => rfl
@@ -901,14 +897,13 @@ theorem stepAccepted_freshA (k : Kind) (c : C) (call : Api) (hc : c.connected = 
     · rw [regAccepted_other _ _ k' _ tag h2 k (fun h => hk h.symm)]
       simp [hk]
 
-theorem accepted_freshA (k : Kind) (c : C) (evs : List Ev) (hc : c.connected = true) (he : noEarly evs = true)
+theorem accepted_freshA (k : Kind) (c : C) (evs : List Ev) (hc : c.connected = true)
     (hf : FreshA c evs = true) : (accepted k c evs).map (·.tag) = requestedTags k evs := by
   induction evs generalizing c with
   | nil => rfl
   | cons ev evs ih =>
-    simp only [noEarly, List.all_cons, Bool.and_eq_true, Bool.not_eq_true'] at he
     simp only [FreshA, Bool.and_eq_true] at hf
-    have ih' := ih (step c ev).1 (step_connected c ev hc) (by simpa [noEarly] using he.2) hf.2
+    have ih' := ih (step c ev).1 (step_connected c ev hc) hf.2
     cases ev with
     | api call =>
       simp only [accepted, requestedTags, List.map_append, ih']
@@ -916,7 +911,14 @@ theorem accepted_freshA (k : Kind) (c : C) (evs : List Ev) (hc : c.connected = t
       cases callReq call with
       | none => rfl
       | some x => obtain ⟨k', id, tag⟩ := x; rfl
-    | apiEarlyAck call ack => simp [isEarly] at he
+    | apiEarlyAck call ack =>
+      simp only [accepted, requestedTags, List.map_append, ih']
+      have := stepAccepted_freshA k c call hc hf.1
+      simp only [stepAccepted] at this ⊢
+      rw [this]
+      cases callReq call with
+      | none => rfl
+      | some x => obtain ⟨k', id, tag⟩ := x; rfl
     | connect a => simp only [accepted, requestedTags, stepAccepted, List.nil_append, ih']
     | peer p => simp only [accepted, requestedTags, stepAccepted, List.nil_append, ih']
 
